@@ -266,6 +266,31 @@ class RefRxn:
             return m
         raise HarnessError(self.kind)
 
+    def apply_mag(self, m, mag=None):
+        """Like ``apply`` but also returns, per entry, the sum of the magnitudes of all terms that were
+        added (feed included): the natural scale of that entry's round-off."""
+        m = np.array(m, float)
+        mag = np.abs(m) if mag is None else mag
+        if self.kind == 'rxn':
+            d = m[self.idx] * self.X * self.nu
+            return m + d, mag + np.abs(d)
+        if self.kind == 'par':
+            ext = [it.X * m[it.idx] for it in self.items]
+            out = m.copy()
+            for e, it in zip(ext, self.items):
+                out = out + e * it.nu
+                mag = mag + np.abs(e * it.nu)
+            return out, mag
+        if self.kind == 'ser':
+            for it in self.items:
+                d = m[it.idx] * it.X * it.nu
+                m = m + d
+                mag = mag + np.abs(d)
+            return m, mag
+        for it in self.items:
+            m, mag = it.apply_mag(m, mag)
+        return m, mag
+
     def leaves(self):
         if self.kind == 'rxn':
             return [self]
@@ -469,7 +494,7 @@ def build_stream(qid, rows, phases, T=300., P=101325.):
 
 
 def apply_and_judge(ctx, site, region, rxn, ref, basis, pid, feed, tgt, phases=(), qid=None,
-                    stream_phase='l', T=300., P=101325., rtol=1e-11, check_conservation=True):
+                    stream_phase='l', T=300., P=101325., rtol=1e-12, check_conservation=True):
     """Apply the real object ``rxn`` (defined on package ``pid``, reference model ``ref`` in ``basis``)
     to a fresh target holding ``feed`` (dense, P order; 1-d for phase-less reactions, phases x N
     otherwise) and compare with the NumPy reference.  Returns the outcome dict."""
@@ -505,11 +530,11 @@ def apply_and_judge(ctx, site, region, rxn, ref, basis, pid, feed, tgt, phases=(
         mol_in = feed
         if basis == 'wt':
             feas_in = mol_in * MWp
-            feas_out = ref.apply(feas_in)
+            feas_out, mag = ref.apply_mag(feas_in)
             cmp_out = feas_out / MWp
         else:
             feas_in = mol_in
-            feas_out = ref.apply(mol_in)
+            feas_out, mag = ref.apply_mag(mol_in)
             cmp_out = feas_out
         cmp_in = mol_in
     else:
@@ -517,7 +542,7 @@ def apply_and_judge(ctx, site, region, rxn, ref, basis, pid, feed, tgt, phases=(
             feas_in = feed * mw(qid)          # the array that is reacted holds mass flows
         else:
             feas_in = feed
-        feas_out = ref.apply(feas_in)
+        feas_out, mag = ref.apply_mag(feas_in)
         cmp_in, cmp_out = feas_in, feas_out
     scale_feas = max(1.0, float(np.abs(feas_in).sum()), float(np.abs(feas_out).sum()))
     scale = max(1.0, float(np.abs(cmp_in).sum()), float(np.abs(cmp_out).sum()))
@@ -531,16 +556,22 @@ def apply_and_judge(ctx, site, region, rxn, ref, basis, pid, feed, tgt, phases=(
     except InfeasibleRegion:
         raised = True
     # ---- judge ------------------------------------------------------------
+    # The code raises iff the sum of its negative entries is < -1e-12.  Entries the reference leaves
+    # untouched are exact; a changed entry may differ from the reference by round-off, at most ~45 ulp of
+    # the summed magnitudes of the terms that formed it (delta), so the sum seen by the code lies in
+    # [s_lo, s_hi] and only outcomes outside that interval are judged.
     neg = float(feas_out[feas_out < 0].sum()) if (feas_out < 0).any() else 0.0
-    band = 10 * rtol * scale_feas + 1e-13
+    delta = np.where(feas_out != feas_in, 1e-14 * mag, 0.0)
+    s_lo = float(np.minimum(feas_out - delta, 0.0).sum())
+    s_hi = float(np.minimum(feas_out + delta, 0.0).sum())
     out = {'raised': raised, 'feas_out': feas_out, 'cmp_out': cmp_out, 'cmp_in': cmp_in, 'stream': stream}
     if raised:
         ctx.cell('outcome:InfeasibleRegion')
-        if neg > -1e-12 + band:
+        if s_lo >= -1e-12:
             ctx.fail(f'{site}|{region}|spurious-InfeasibleRegion',
-                     f'InfeasibleRegion raised but the reference result has no negative flow (sum of negatives {neg!r})')
+                     f'InfeasibleRegion raised but the reference result has no negative flow (min entry {float(feas_out.min())!r})')
         return out
-    if neg < -1e-12 - band:
+    if s_hi < -1e-12:
         ctx.fail(f'{site}|{region}|negative-accepted',
                  f'reference result has negative flows (sum {neg!r}) but the call returned normally')
     if neg < 0:
@@ -561,11 +592,11 @@ def apply_and_judge(ctx, site, region, rxn, ref, basis, pid, feed, tgt, phases=(
         if got.shape != want.shape:
             ctx.fail(f'{site}|{region}|shape', f'{got.shape} vs {want.shape}')
     err = float(np.abs(got - want).max()) if got.size else 0.0
-    ctx.metric_max('flows:rel_err', err / scale)
-    if not err <= rtol * scale + abs(neg):
+    if not err <= rtol * scale + 2e-12:     # round-off negatives down to -1e-12 in total are zeroed by design
         k = int(np.abs(got - want).argmax())
         ctx.fail(f'{site}|{region}|mismatch',
                  f'max |got-ref| = {err!r} at flat index {k}: got {got.ravel()[k]!r} want {want.ravel()[k]!r} (scale {scale!r})')
+    ctx.metric_max(f'flows:rel_err(rtol={rtol:g})', err / scale)
     if (got < 0).any() or np.isnan(got).any():
         ctx.fail(f'{site}|{region}|negative', f'negative/NaN entry {got.min()!r} after a normal return')
     out['got'] = got
@@ -589,20 +620,20 @@ def apply_and_judge(ctx, site, region, rxn, ref, basis, pid, feed, tgt, phases=(
             ea, eb = A @ n_out, A @ n_in
             sc = max(1.0, float((A @ np.abs(n_in)).max()), float((A @ np.abs(n_out)).max()))
             r = float(np.abs(ea - eb).max()) / sc
-            ctx.metric_max('atoms:rel_err', r)
-            if not r <= 1e-9 + abs(neg) / sc * A.max():
+            if not r <= 1e-9:
                 e = ELEMENTS[int(np.abs(ea - eb).argmax())]
                 ctx.fail(f'{site}|{region}|atoms', f'element {e}: {eb.tolist()} -> {ea.tolist()}')
+            ctx.metric_max('atoms:rel_err', r)
             r = abs(m_out - m_in) / max(1.0, abs(m_in))
-            ctx.metric_max('mass:rel_err', r)
-            if not r <= 1e-9 + abs(neg) * MW.max() / max(1.0, abs(m_in)):
+            if not r <= 1e-9:
                 ctx.fail(f'{site}|{region}|mass', f'total mass {m_in!r} -> {m_out!r}')
+            ctx.metric_max('mass:rel_err', r)
     if stream is not None and tgt == 'S':
         fm = float(stream.F_mass)
         r = abs(fm - fmass_before) / max(1.0, abs(fmass_before))
-        ctx.metric_max('F_mass:rel_err', r)
-        if not r <= 1e-9 + abs(neg) * MWp.max() / max(1.0, abs(fmass_before)):
+        if not r <= 1e-9:
             ctx.fail(f'{site}|{region}|F_mass', f'Stream.F_mass {fmass_before!r} -> {fm!r}')
+        ctx.metric_max('F_mass:rel_err', r)
         if stream.T != T or stream.P != P:
             ctx.fail(f'{site}|{region}|thermal', 'T or P changed by an isothermal reaction call')
     return out
